@@ -29,20 +29,27 @@ def timeout(duration, func, *args, **kwargs):
              ensures=[exact_instance(result, InterruptableThread), fresh(result)])
     abstract("target_thread.start", raises=None, modifies=[ghost('started')],
              ensures=[ghost('started') == old(ghost('started')) + 1])
-    abstract("target_thread.join", raises=None, modifies=[attrs(target_thread), ghost('joined')],
+    abstract("target_thread.join", raises=None, modifies=[attrs(target_thread), ghost('joined'), ghost('worker_exc_info_value')],
              ensures=[ghost('joined') == old(ghost('joined')) + 1, is_tuple(target_thread.exc_info),
-                      seq_len(tuple_items(target_thread.exc_info)) == 3])
+                      eqv(ghost_val('worker_exc_info_value'), target_thread.exc_info),
+                      seq_len(tuple_items(target_thread.exc_info)) == 3,
+                      # InterruptableThread.run() stores sys.exc_info() of an `except Exception` clause, or leaves (None, None, None)
+                      tuple_items(target_thread.exc_info)[0] is None
+                      or instance_of(tuple_items(target_thread.exc_info)[1], Exception)])
     abstract("target_thread.is_alive", raises=None, ensures=[is_bool(result)], label="is_alive")
     abstract("target_thread.terminate", raises=None, modifies=[ghost('terminated')],
              ensures=[ghost('terminated') == old(ghost('terminated')) + 1])
-    abstract("ei[0]", raises=None, label="rebuild", ensures=[instance_of(result, Exception), fresh(result)])
-    modifies(ghost('started'), ghost('joined'), ghost('terminated'))
+    modifies(ghost('started'), ghost('joined'), ghost('terminated'), ghost('worker_exc_info_value'), attr_of_any('__traceback__'),
+             attr_of_any('exc_info'))
     raises_only(Exception)
     on_any_exit("worker_started_and_joined_once", ghost('started') == old(ghost('started')) + 1
                 and ghost('joined') == old(ghost('joined')) + 1)
     on_any_exit("terminated_at_most_once", ghost('terminated') == old(ghost('terminated'))
                 or ghost('terminated') == old(ghost('terminated')) + 1)
     ensures("a_result_means_nobody_was_terminated", ghost('terminated') == old(ghost('terminated')) and result is None)
+    ensures_raises("a_worker_failure_is_handed_on_as_the_object_it_is", Exception,
+                   implies(ghost('terminated') == old(ghost('terminated')),
+                           raised is tuple_items(ghost_val('worker_exc_info_value'))[1]))
     ensures_raises("terminated_worker_means_timeout_error", Exception,
                    implies(ghost('terminated') == old(ghost('terminated')) + 1, exact_instance(raised, TimeoutError)))
 
